@@ -358,6 +358,57 @@ def iterator_stack(cx, quick):
         cx.ck.sub("iterator-stack", **{name: "overflow<=%s ok>=%s" % (max(ovs) if ovs else None, min(oks) if oks else None)})
 
 
+def regex_code_size(cx, quick):
+    """the 16-bit jump / split offsets of the regex byte code: for every quantifier / alternation form, every body size at ONE-byte granularity in a window
+    around the limit (k character classes + j zero-width \\B; the largest accepted k is found first): the compile either fails with 'too large' or the regex still
+    means what it says (five probe buffers); the accept / reject boundary is sharp"""
+    forms = [("star", "abcd(%s)*e", 0), ("star-lazy", "abcd(%s)*?e", 0), ("plus", "abcd(%s)+e", 1), ("opt", "abcd(%s)?e", 0), ("alt-right", "abcd(x|%s)e", 1), ("alt-left", "abcd(%s|x)e", 1)]
+    def compile_only(rule):
+        rep = cx.batch(["reset", "compiler 0", "add 0 - " + yv.hx(rule), "cdestroy 0", "reset"])
+        return None if isinstance(rep, Exception) else rep[2]
+    for name, fmt, need in forms:
+        # j one-byte opcodes that consume nothing (\\B between two word characters), so that the match stays inside the engine's 1024-byte match window
+        mk = lambda k, j: ("rule r { strings: $a = /%s/ condition: $a }" % (fmt % ("[a-c]\\B" * j + "[a-c]" * (k - j))), b"b" * k)
+        lo, hi = 1, 1400                       # largest k (classes only) that still compiles
+        while lo < hi:
+            mid = (lo + hi + 1) // 2
+            a_ = compile_only(mk(mid, 0)[0])
+            if a_ is not None and a_["errors"] == 0: lo = mid
+            else: hi = mid - 1
+        kmax = lo
+        outcome = {}
+        for k, j in [(kmax - 1, j) for j in range(20, 80)] if not quick else [(kmax - 1, j) for j in range(28, 76)]:
+            rule, inst = mk(k, j)
+            probes = [b"abcde", b"abcdX", b"abcd" + inst + b"e", b"abcd" + inst + b"X", b"abcdxe"]
+            rep = cx.batch(["reset", "compiler 0", "add 0 - " + yv.hx(rule), "getrules 0 0", "cdestroy 0"] + ["scan target=r0 via=mem data=" + yv.hx(p_) for p_ in probes] + ["reset"] + CANARY)
+            cx.n += 1
+            T = (k, j)
+            if isinstance(rep, Exception):
+                err = getattr(rep, "err", "")
+                cx.ck.violation("C15:regex-code-size:%s:crash" % name, dict(classes=k, dots=j, error=str(rep)[:300], stderr=err[-2000:])); outcome[T] = "crash"; continue
+            add = rep[2]
+            if add["errors"]:
+                outcome[T] = "rejected:%d" % add["last"]
+                if add["last"] not in (E["RE_LARGE"], E["RE_COMPLEX"]):
+                    cx.ck.violation("C15:regex-code-size:%s:unexpected-error" % name, dict(classes=k, dots=j, reply=add))
+            else:
+                outcome[T] = "ok"
+                exp = [need == 0, False, True, False, name.startswith("alt")]
+                got = []
+                for r in rep[5:5 + len(probes)]:
+                    got.append(any(m[0] == "m" for m in r["t"]) if r["rc"] == 0 else "rc=%d" % r["rc"])
+                if got != exp:
+                    cx.ck.violation("C15:regex-code-size:%s:accepted-regex-does-not-mean-what-it-says" % name, dict(classes=k, dots=j, probes=["abcde", "abcdX", "abcd<body>e", "abcd<body>X", "abcdxe"], expected=exp, observed=got))
+            if not canary_ok(rep[-len(CANARY):]):
+                cx.ck.violation("C15:regex-code-size:%s:library-unusable-afterwards" % name, dict(classes=k, dots=j))
+        oks = [T[1] for T, o in outcome.items() if o == "ok"]; rej = [T[1] for T, o in outcome.items() if o.startswith("rejected")]
+        if oks and rej and max(oks) > min(rej):
+            cx.ck.violation("C15:regex-code-size:%s:boundary-not-monotonic" % name, dict(accepted=sorted(oks)[-4:], rejected=sorted(rej)[:4]))
+        if not rej or not oks:
+            cx.ck.violation("C15:regex-code-size:harness:window-misses-the-limit", dict(form=name, kmax=kmax, outcomes=sorted(outcome.items())[:3] + sorted(outcome.items())[-3:]))
+        cx.ck.sub("regex-code-size", **{name: "classes=%d: extra one-byte opcodes accepted<=%s rejected>=%s" % (kmax - 1, max(oks) if oks else None, min(rej) if rej else None)})
+
+
 def main():
     ck = yv.Check("C15", "exploration")
     quick = ck.tier == "quick"
@@ -374,6 +425,7 @@ def main():
         total += cx.n
         yv.drop_worker(variant)
     cx = Ctx(ck, "asan")
+    regex_code_size(cx, quick)
     iterator_stack(cx, quick)
     total += cx.n
     yv.drop_worker("asan")
@@ -381,7 +433,7 @@ def main():
     ck.cov["distinct_nontrivial"] = total
     ck.sample(dict(limit="strings-per-rule", case="L=2 strings=3 -> ERROR_TOO_MANY_STRINGS, then canary compile+scan"))
     ck.sample(dict(limit="timeout", case="nested loops, deadline passes at poll k for every k in 1..cap -> rc 26 at poll k, scanner reusable"))
-    ck.cov["rule"] = ("a case = one limit driven at one size (L-1, L, L+1, 2L, 10L for each configured L; every depth up to S+5 for each stack size S; every loop-iterator kind alone and nested at every stack size 1..N under ASan; every deadline poll k for "
+    ck.cov["rule"] = ("a case = one limit driven at one size (L-1, L, L+1, 2L, 10L for each configured L; every depth up to S+5 for each stack size S; every loop-iterator kind alone and nested at every stack size 1..N under ASan; every regex quantifier / alternation form at every body code size in a window around the 16-bit offset limit; every deadline poll k for "
                       "each timeout shape), followed by the usability checks; every case is distinct; boundaries are required to be sharp and monotonic")
     ck.assumptions += ["the build with scaled constants is the same source with smaller #ifndef-guarded limits", "stack demand of an expression shape is not predicted: a sharp ok/overflow boundary is required instead",
                        "timeouts use the harness-owned clock (1 microsecond per poll, jump of 5 s at poll k)"]
